@@ -13,6 +13,7 @@ import (
 	"path/filepath"
 	"strings"
 	"sync"
+	"sync/atomic"
 	"time"
 
 	"gvh/internal/gojs"
@@ -113,7 +114,7 @@ func runJob(j job, scratch string) result {
 			res.PDecls = decls
 			r := gojs.RunNode(js, to)
 			if r.TimedOut {
-				r = gojs.RunNode(js, 6*to)
+				r = gojs.RunNode(js, 4*to)
 			}
 			res.P = conv(r)
 		}
@@ -129,6 +130,7 @@ func runJob(j job, scratch string) result {
 		res.QDecls = decls
 		res.Other = other
 		res.Q = make([]runOut, len(j.Schedules))
+		var hangs int32
 		var wg sync.WaitGroup
 		sem := make(chan struct{}, 4)
 		for i, s := range j.Schedules {
@@ -138,9 +140,13 @@ func runJob(j job, scratch string) result {
 				defer wg.Done()
 				defer func() { <-sem }()
 				r := gojs.RunNode(js, to, "GV_SCHED="+s)
-				if r.TimedOut {
-					// a loaded machine is not a property failure: re-run alone with a much longer limit
-					r = gojs.RunNode(js, 6*to, "GV_SCHED="+s)
+				if r.TimedOut && atomic.LoadInt32(&hangs) < 2 {
+					// a loaded machine is not a property failure: re-run with a much longer limit; once two
+					// runs of this artefact exceeded even that, the program hangs and further retries are pointless
+					r = gojs.RunNode(js, 4*to, "GV_SCHED="+s)
+					if r.TimedOut {
+						atomic.AddInt32(&hangs, 1)
+					}
 				}
 				res.Q[i] = conv(r)
 			}(i, s)
@@ -155,7 +161,7 @@ func runJob(j job, scratch string) result {
 			for _, s := range j.Native {
 				r := gojs.RunNative(bin, to, "GV_SCHED="+s)
 				if r.TimedOut {
-					r = gojs.RunNative(bin, 6*to, "GV_SCHED="+s)
+					r = gojs.RunNative(bin, 4*to, "GV_SCHED="+s)
 				}
 				res.Native = append(res.Native, conv(r))
 			}
